@@ -3,12 +3,12 @@ package main
 // gvc check: decide one property, write evidence, report violations / known findings.
 
 import (
-	"regexp"
 	"encoding/json"
 	"flag"
 	"fmt"
 	"os"
 	"path/filepath"
+	"regexp"
 	"runtime"
 	"sort"
 	"strconv"
@@ -21,8 +21,11 @@ type KnownFinding struct {
 	Obligation string `json:"obligation"`
 	Function   string `json:"function"`
 	Class      string `json:"class"` // predicate over the function's inputs (contract syntax) describing the failing inputs
-	What       string `json:"what"`
-	Witness    string `json:"witness,omitempty"`
+	// ClassThroughout: the class is a predicate over state the function does not write (configuration);
+	// the restricted proof excludes it for the whole run of the function, not only at entry
+	ClassThroughout bool   `json:"class_throughout,omitempty"`
+	What            string `json:"what"`
+	Witness         string `json:"witness,omitempty"`
 }
 
 type KnownFile struct {
@@ -242,7 +245,7 @@ func cmdCheck(args []string) int {
 			}
 		}
 		if kf != nil && f.con != nil {
-			if reproveExcluding(P, f.con, f.name, kf.Class, timeout) {
+			if reproveExcluding(P, f.con, f.name, kf.Class, kf.ClassThroughout, timeout) {
 				knownLines = append(knownLines, fmt.Sprintf("KNOWN-FINDING: property=%s %s [obligation %s holds outside the listed class: %s]", *prop, kf.What, f.name, kf.Class))
 				continue
 			}
@@ -353,7 +356,7 @@ func cmdCheck(args []string) int {
 }
 
 // reproveExcluding regenerates the function with the extra assumption !class and checks one obligation.
-func reproveExcluding(P *Program, con *FuncContract, oblName, class string, timeout int) bool {
+func reproveExcluding(P *Program, con *FuncContract, oblName, class string, throughout bool, timeout int) bool {
 	e, err := parseCExpr("!(" + class + ")")
 	if err != nil {
 		fmt.Fprintf(os.Stderr, "known finding class does not parse: %v\n", err)
@@ -361,8 +364,12 @@ func reproveExcluding(P *Program, con *FuncContract, oblName, class string, time
 	}
 	c2 := *con
 	c2.Assumes = append(append([]*Clause{}, con.Assumes...), &Clause{Label: "known_class_excluded", Src: "!(" + class + ")", Expr: e})
+	if throughout {
+		c2.StableAssumes = []*Clause{{Label: "known_class_excluded_throughout", Src: "!(" + class + ")", Expr: e}}
+	}
 	r := generate(P, &c2)
 	if r.Rejected != "" {
+		fmt.Fprintf(os.Stderr, "known finding %s: the restricted form was rejected: %s\n", oblName, r.Rejected)
 		return false
 	}
 	var keep []*Obligation
@@ -376,6 +383,10 @@ func reproveExcluding(P *Program, con *FuncContract, oblName, class string, time
 	}
 	r.Obls = keep
 	discharge([]*FuncResult{r}, solveOpts{timeout: timeout, workers: 2})
+	if d := os.Getenv("GVC_DEBUG_REPROVE"); d != "" {
+		os.WriteFile(d, []byte(keep[0].Query+"(check-sat)\n"), 0644)
+		fmt.Fprintf(os.Stderr, "reprove %s: %s %s\n", oblName, keep[0].Result.Status, keep[0].Result.Raw)
+	}
 	return keep[0].ok()
 }
 
@@ -458,23 +469,23 @@ func writeEvidence(verif, prop, tier string, seed int, P *Program, results []*Fu
 	// obligation outside the listed class. It is counted as discharged in that restricted form
 	// and reported separately, so that "discharged" never silently includes an unrestricted one.
 	cov := map[string]interface{}{
-		"obligations":   total,
-		"discharged":    okN + knownN,
+		"obligations":             total,
+		"discharged":              okN + knownN,
 		"discharged_unrestricted": okN,
 		"discharged_outside_a_listed_known_finding_class": knownN,
-		"checker_cmd":   fmt.Sprintf("/verif/bin/gvc check -prop %s -tier %s (per obligation: z3-new (5.1.0) | cvc5 raced, timeout %s)", prop, tier, map[string]string{"quick": "10s+40s escalation", "thorough": "40s+160s escalation"}[tier]),
-		"trusted_base":  tb,
-		"functions":     funcs,
-		"samples":       samples,
-		"solver_time_s": round3(solverTime),
-		"max_obligation_time_s": round3(maxT),
-		"by_backend":    byBackend,
-		"bounded":       pm.Bounded,
-		"not_decided":   pm.NotDecided,
-		"reach":         pm.Reach,
-		"load_s":        round3(P.loadSeconds),
+		"checker_cmd":            fmt.Sprintf("/verif/bin/gvc check -prop %s -tier %s (per obligation: z3-new (5.1.0) | cvc5 raced, timeout %s)", prop, tier, map[string]string{"quick": "10s+40s escalation", "thorough": "40s+160s escalation"}[tier]),
+		"trusted_base":           tb,
+		"functions":              funcs,
+		"samples":                samples,
+		"solver_time_s":          round3(solverTime),
+		"max_obligation_time_s":  round3(maxT),
+		"by_backend":             byBackend,
+		"bounded":                pm.Bounded,
+		"not_decided":            pm.NotDecided,
+		"reach":                  pm.Reach,
+		"load_s":                 round3(P.loadSeconds),
 		"known_findings_matched": knownN,
-		"explanation":   "every obligation is generated from the SSA of /repo's current working tree (packages loaded with -tags verif) and discharged by an SMT solver; vacuity covers (expect sat) are counted as obligations; an obligation that fails only for a listed known finding is counted as discharged in its restricted form (the listed class excluded, re-proved on this run) and the finding is printed as KNOWN-FINDING",
+		"explanation":            "every obligation is generated from the SSA of /repo's current working tree (packages loaded with -tags verif) and discharged by an SMT solver; vacuity covers (expect sat) are counted as obligations; an obligation that fails only for a listed known finding is counted as discharged in its restricted form (the listed class excluded, re-proved on this run) and the finding is printed as KNOWN-FINDING",
 	}
 	cov["bounded"] = append(append([]string{}, pm.Bounded...), boundedGlobal...)
 	if selftest != nil {
